@@ -459,6 +459,33 @@ def c20_4(ctx: Ctx) -> RuleResult:
             return bool(v.value)
         return False
 
+    # the same test written as the guard of a mapping pattern: `case {"error": error} if error:`
+    for mth in parent_cls.methods.values():
+        for mt_ in nodes_in(mth, ast.Match):
+            for case in mt_.cases:
+                caps = {}
+                for p_ in ast.walk(case.pattern):
+                    if isinstance(p_, ast.MatchMapping):
+                        for k_, v_ in zip(p_.keys, p_.patterns):
+                            if isinstance(k_, ast.Constant) and k_.value in written_vals and isinstance(v_, ast.MatchAs) and v_.name and v_.pattern is None:
+                                caps[v_.name] = k_.value
+                if case.guard is None or not caps:
+                    continue
+                stack = [case.guard]
+                while stack:
+                    t_ = stack.pop()
+                    if isinstance(t_, ast.UnaryOp) and isinstance(t_.op, ast.Not):
+                        stack.append(t_.operand)
+                        continue
+                    if isinstance(t_, ast.BoolOp):
+                        stack.extend(t_.values)
+                        continue
+                    if isinstance(t_, ast.Name) and t_.id in caps:
+                        key = caps[t_.id]
+                        ok = all(never_falsy(v) for v in written_vals[key])
+                        res.add(mth, case.guard, f"the `{key}` message is recognised by the presence of its key (`is not None` / `in`), or its value can never be falsy", ok,
+                                "" if ok else f"the guard `{ast.unparse(case.guard)[:60]}` tests the value's truth: the child can send `{ast.unparse(written_vals[key][0])[:40]}` which may be empty - the message is then ignored and both sides wait",
+                                construct=f"{mth.name}: presence test of `{key}`")
     for mth in parent_cls.methods.values():
         gets = {}
         for call in calls_in(mth):
